@@ -179,7 +179,7 @@ def stencil_cases(ctx, N):
 
 def run(ctx):
     import numdifftools as nd
-    proof_stage(ctx, 'Props/C04.v')
+    proof_stage(ctx, ['Props/C04.v', 'Props/C04b.v'])
     scases, sdescs = stencil_cases(ctx, ctx.n(40, 400))
     sitems = [('C04_S_%d' % s, SHDR + 'Definition cases := [\n' + ';\n'.join(scases[s:s + 150]) + '].\nEval vm_compute in (List.length cases, failing okH cases).\n') for s in range(0, len(scases), 150)]
     sbad = 0
@@ -249,6 +249,6 @@ def run(ctx):
     search(ctx, ctx.n(10, 120))
     ctx.assumptions += ['proved: exact symmetry for any arithmetic given that the stencil copies (i,j) to (j,i) (observed on every recorded stencil output), exactness of every real-step Hessian/Hessdiag difference quotient on quadratics in any dimension; NOT proved: the complex / multicomplex quotients (they need the complexification of f) and the accuracy envelope for non-quadratic f -- both explored by the sweep against analytic Hessians',
                         'the evaluation points of the stencils are the subject of C05; their combination formulas (real-step Hessian forward/backward/central/central2 and Hessdiag) are tied bit-for-bit to Model/HessStencil.v, about which the quadratic-exactness theorems are stated']
-    return ctx.finish(level='proof', checker_cmd='make -C coq Props/C04.vo + coqc build/cases/C04_*.v',
+    return ctx.finish(level='proof', checker_cmd='make -C coq Props/C04.vo Props/C04b.vo + coqc build/cases/C04_*.v',
                       rule='Hessian (6 methods) and Hessdiag (orders 2,4,6) on exp(a.x)+sin(b.x)+x\'Qx/2 and pure quadratics, n = 1..6, default and user steps, f returning a scalar or a length-1 array, scalar x; every result entry tied to the model of _extrapolate; '
                            'distinct = (kind, class/method, dimension or order) combinations hit')
